@@ -216,3 +216,24 @@ example : tokenRequest .direct .jwt7523 (some ["a".toList, "b".toList, "z".toLis
   decide +kernel
 
 end Props.C08
+
+namespace Props.C08
+open Model.Text Model.Scope
+
+/-- RFC 6749 §3.3 `scope-token = 1*NQCHAR` (%x21 / %x23-5B / %x5D-7E): no such character is white space to `str.split()` -/
+theorem nqchar_not_space (c : Char) (h : 0x21 ≤ c.toNat ∧ c.toNat ≤ 0x7e) : isPySpace c = false := by
+  unfold isPySpace
+  simp only [Bool.or_eq_false_iff, Bool.and_eq_false_iff, decide_eq_false_iff_not]
+  omega
+
+/-- hence a scope token is never split, whatever punctuation it contains (`,` `;` `+` `:` `/` …): the scope string of
+    tokens joined by single spaces splits into exactly those tokens -/
+theorem scope_tokens_roundtrip (ws : List Str) (h : ∀ w ∈ ws, w ≠ [] ∧ ∀ c ∈ w, 0x21 ≤ c.toNat ∧ c.toNat ≤ 0x7e) :
+    scopeToList (listToScope ws) = ws := by
+  unfold scopeToList listToScope
+  exact splitWs_joinSp ws (fun w hw => ⟨(h w hw).1, fun c hc => nqchar_not_space c ((h w hw).2 c hc)⟩)
+
+/-- in particular a comma-joined name is ONE scope token -/
+example : scopeToList "read,write admin".toList = ["read,write".toList, "admin".toList] := by decide
+
+end Props.C08
